@@ -1,2 +1,369 @@
-/- C03 — placeholder while the theorems are being written -/
-import CelerVerif.Model.Nav
+/-
+C03 — Geometry navigation matches true point location along every ray.
+Property theorems only, about the `Num`-generic model Model/Nav.lean read at ℝ (the same
+definitions run at `Float` reproduce the real OrangeTrackView / unit trackers field by field:
+harness/nav.cc, tools/checks/c03.py).  Helper lemmas: Lemmas/NavCore.lean, NavTrack.lean.
+
+What is NOT proved here (carried by the bit-exact differential run and the independent
+point-location oracle): the multi-level composition of the single-level ray-trace theorem,
+rays through corners / tangent points (simultaneous or double events), floating-point rounding.
+-/
+import CelerVerif.Lemmas.NavTrack
+
+namespace CelerVerif.Nav
+open CelerVerif CelerVerif.Surf
+
+/-! ### unit tracker: choice of the next surface -/
+
+/-- `complex_intersect`: given the crossing events in ascending order, the result is the FIRST
+    crossing after which the volume's logic is false (the logic is true after each earlier
+    crossing), the reported sense is the sense held just before that crossing; no result means
+    the logic stays true behind every event. -/
+theorem complexIntersect_first_exit (inside : Array Bool → Bool) (s : Array Bool)
+    (l : List (Hit ℝ)) :
+    (∀ h old, firstExit inside s l = some (h, old) →
+      ∃ a b, l = a ++ h :: b ∧
+        (∀ k, k ≠ 0 → k ≤ a.length → inside (flipAll s (l.take k)) = true) ∧
+        inside (flipAll s (a ++ [h])) = false ∧
+        old = (flipAll s a).getD h.face false) ∧
+    (firstExit inside s l = none →
+      ∀ k, k ≠ 0 → k ≤ l.length → inside (flipAll s (l.take k)) = true) :=
+  ⟨fun h old hr => firstExit_some inside s l (h, old) hr, firstExit_none inside s l⟩
+
+/-- `simple_intersect`: `min_element` returns a nearest saved intersection, the first of the
+    nearest ones; and in a volume where crossing any single face leaves the volume (a "simple"
+    volume: no internal surfaces, C10 `flagSimple_sound`) this is exactly the exit that the
+    general algorithm (sort, flip, re-evaluate) computes. -/
+theorem simpleIntersect_exit (inside : Array Bool → Bool) (s : Array Bool) (hits : List (Hit ℝ))
+    (hsimple : ∀ h ∈ hits, inside (flip1 s h) = false) :
+    (∀ m, minHit hits = some m →
+      m ∈ hits ∧ (∀ x ∈ hits, top m.dist ≤ top x.dist) ∧
+      ∃ a b, hits = a ++ m :: b ∧ ∀ x ∈ a, top m.dist < top x.dist) ∧
+    firstExit inside s (sortHits hits) = (minHit hits).map fun m => (m, s.getD m.face false) := by
+  refine ⟨fun m hm => ⟨minHit_mem _ _ hm, minHit_le _ _ hm, minHit_first _ _ hm⟩, ?_⟩
+  have hh := sortHits_head hits
+  cases hs : sortHits hits with
+  | nil =>
+    rw [hs] at hh; simp only [List.head?_nil] at hh
+    rw [← hh]; rfl
+  | cons x xs =>
+    rw [hs] at hh; simp only [List.head?_cons] at hh
+    rw [← hh, firstExit_cons]
+    have hx : x ∈ hits := (sortHits_mem hits x).1 (by rw [hs]; simp)
+    rw [if_pos (hsimple x hx)]
+    rfl
+
+/-- ★ a distance-limited search gives the unlimited answer truncated at the limit
+    (`intersect(state, max)` vs `intersect(state)` of the simple-unit tracker: filter
+    `IsNotFurtherThan` before the min / sort + scan, for simple, complex and background
+    volumes alike).  Hypothesis: the limit is below `numeric_limits::max()`. -/
+theorem limited_eq_truncated_unlimited (g : Geo ℝ) (u : SimpleUnit ℝ) (st : LocalState ℝ)
+    (m : ℝ) (hm : m < (maxFinite : ℝ)) :
+    u.intersectImpl g st (.notFurther (some m)) = truncate (some m) (u.intersectImpl g st .finite) := by
+  unfold SimpleUnit.intersectImpl gatherHits
+  simp only []
+  rw [gatherHitsFrom_limited m hm, pickHit_filter]
+
+/-- … in the form used by the level loop: found within the limit ⇒ the unlimited answer,
+    otherwise "no surface, distance = limit" -/
+theorem intersectMax_simple (g : Geo ℝ) (uid : ℕ) (u : SimpleUnit ℝ) (hu : g.univ uid = .simple u)
+    (st : LocalState ℝ) (m : ℝ) (hm : m < (maxFinite : ℝ)) :
+    g.intersectMax uid st (some m) =
+      if (g.intersect uid st).surf.id.isSome && dle (g.intersect uid st).dist (some m)
+      then g.intersect uid st else { (Isect.none' : Isect ℝ) with dist := some m } := by
+  unfold Geo.intersectMax Geo.intersect Geo.intersectImpl
+  rw [hu]
+  simp only []
+  rw [limited_eq_truncated_unlimited g u st m hm]
+  unfold truncate
+  by_cases hc : ((u.intersectImpl g st .finite).surf.id.isSome
+      && dle (u.intersectImpl g st .finite).dist (some m)) = true
+  · have h1 : (u.intersectImpl g st .finite).surf.id.isSome = true := by
+      have : (u.intersectImpl g st .finite).surf.id.isSome = true
+          ∧ dle (u.intersectImpl g st .finite).dist (some m) = true := by simpa using hc
+      exact this.1
+    simp only [hc, if_true]
+    have : (u.intersectImpl g st .finite).surf.id.isNone = false := by
+      cases h : (u.intersectImpl g st .finite).surf.id <;> simp_all
+    simp [this]
+  · simp only [hc, Bool.false_eq_true, if_false]
+    simp [Isect.none']
+
+/-! ### OrangeTrackView: find_next_step over the levels -/
+
+/-- `find_next_step_impl`: with per-level limited searches that are truncations of the
+    unlimited ones, the loop returns the minimum over all levels of the unlimited distances
+    (and of the level-0 answer `i0`), attained at the SHALLOWEST level: strict `<`, so a deeper
+    level only replaces the current answer when strictly nearer. -/
+theorem findNextStep_min_shallowest (lim : ℕ → Option ℝ → Isect ℝ) (unl : ℕ → Isect ℝ)
+    (hc : LimitedOf lim unl) (ls : List ℕ) (i0 : Isect ℝ) (l0 : ℕ) :
+    let r := findImplLoopG lim ls i0 l0
+    (top r.1.dist ≤ top i0.dist ∧ ∀ l ∈ ls, top r.1.dist ≤ found (unl l)) ∧
+    ((r = (i0, l0) ∧ ∀ l ∈ ls, top i0.dist ≤ found (unl l)) ∨
+     (∃ a l b, ls = a ++ l :: b ∧ r = (unl l, l) ∧ (unl l).surf.id.isSome = true ∧
+        top (unl l).dist < top i0.dist ∧ (∀ l' ∈ a, top (unl l).dist < found (unl l')) ∧
+        ∀ l' ∈ b, top (unl l).dist ≤ found (unl l'))) :=
+  findImplLoopG_spec lim unl hc ls i0 l0
+
+/-- the contract holds for the model's own per-level search whenever the levels are simple
+    units and the running limit is a finite distance below `max()` -/
+theorem levelLimited_contract (g : Geo ℝ) (s : State ℝ) (lev : ℕ) (u : SimpleUnit ℝ)
+    (hu : g.univ (s.lev lev).uid = .simple u) (m : ℝ) (hm : m < (maxFinite : ℝ)) :
+    levelLimited g s lev (some m) =
+      if (g.intersect (s.lev lev).uid (s.localState lev)).surf.id.isSome
+          && dle (g.intersect (s.lev lev).uid (s.localState lev)).dist (some m)
+      then g.intersect (s.lev lev).uid (s.localState lev)
+      else { (Isect.none' : Isect ℝ) with dist := some m } :=
+  intersectMax_simple g _ u hu _ m hm
+
+/-! ### set_dir on a boundary -/
+
+/-- ★ `set_dir` while on a boundary at any nesting level: the boundary flag is flipped exactly
+    when the new direction lies on the other side of the surface than the old one, both taken
+    in the surface's own frame (the frame of `surface_level`; `n` is the surface normal there,
+    directions are the global ones rotated down through the levels above `surface_level`).
+    No hypothesis on the transforms (rotations, reflections, translations). -/
+theorem setDir_flag_correct (g : Geo ℝ) (s : State ℝ) (newdir : Vec3 ℝ) (sl : ℕ) :
+    setDirFlips g s newdir sl =
+      (decide (0 ≤ Vec3.dot (localNormal g s sl) (dirAtLevel g s sl newdir))
+        != decide (0 ≤ Vec3.dot (localNormal g s sl)
+              (dirAtLevel g s sl (s.lev 0).dir))) := by
+  have hle : ∀ x : ℝ, Num.le (Num.ofNat 0) x = decide (0 ≤ x) := by
+    intro x
+    show decide (((0 : ℕ) : ℝ) ≤ x) = _
+    simp
+  unfold setDirFlips
+  simp only [Num.ge, dot_rotateUpFrom, hle]
+
+/-- the loop as written before the repair (`range<int>(level)`) computes the same flag iff …
+    here: whenever no level between `surface_level` and the current level carries a rotation
+    (in particular when `surface_level = level`) -/
+theorem setDir_allLevels_ok_of_translations (g : Geo ℝ) (s : State ℝ) (newdir : Vec3 ℝ) (sl : ℕ)
+    (hle : sl ≤ s.lvl)
+    (htr : ∀ k, sl ≤ k → k < s.lvl → (levelTransform g s k).isRotation = false) :
+    setDirFlipsAllLevels g s newdir sl = setDirFlips g s newdir sl := by
+  have key : ∀ d n, sl + d ≤ s.lvl → rotateUpFrom g s (sl + d) n = rotateUpFrom g s sl n := by
+    intro d
+    induction d with
+    | zero => intro n _; rfl
+    | succ d ih =>
+      intro n hd
+      show rotateUpFrom g s (sl + d) ((levelTransform g s (sl + d)).rotUp n) = _
+      have hnr := htr (sl + d) (by omega) (by omega)
+      have : (levelTransform g s (sl + d)).rotUp n = n := by
+        cases ht : levelTransform g s (sl + d) with
+        | none => rfl
+        | translation _ => rfl
+        | transformation t => rw [ht] at hnr; simp [Transform.isRotation] at hnr
+      rw [this]
+      exact ih n (by omega)
+  unfold setDirFlipsAllLevels setDirFlips
+  obtain ⟨d, hd⟩ := Nat.exists_eq_add_of_le hle
+  rw [hd, key d _ (by omega)]
+
+/-- a rotated-daughter state: level 0 = global unit with the plane x = 5 (surface 0), whose
+    volume 1 holds a daughter rotated a quarter turn about z; the track sits at level 1 on the
+    level-0 surface, heading +x -/
+noncomputable def witnessGeo : Geo ℝ :=
+  { tolRel := 0, tolAbs := 0,
+    universes := #[.simple { surfaces := #[.planeAligned .x 5], conn := #[[0, 1]],
+                             volumes := #[⟨[0], [0], 0, none, ⟨0, 0, 0⟩, ⟨0, 0, 0⟩⟩,
+                                          ⟨[0], [0, lnot], 0, some 0, ⟨0, 0, 0⟩, ⟨0, 0, 0⟩⟩],
+                             background := none, inner := #[], leaves := #[⟨none, []⟩],
+                             infVols := [0, 1] },
+                   .simple { surfaces := #[], conn := #[],
+                             volumes := #[⟨[], [ltrue, lnot], 2, none, ⟨0, 0, 0⟩, ⟨0, 0, 0⟩⟩,
+                                          ⟨[], [ltrue], 0, none, ⟨0, 0, 0⟩, ⟨0, 0, 0⟩⟩],
+                             background := none, inner := #[], leaves := #[⟨none, []⟩],
+                             infVols := [1] }],
+    daughters := #[(1, 0)],
+    transforms := #[.transformation ⟨⟨⟨0, -1, 0⟩, ⟨1, 0, 0⟩, ⟨0, 0, 1⟩⟩, ⟨0, 0, 0⟩⟩],
+    surfOff := #[0, 1, 1], volOff := #[0, 2, 4] }
+
+noncomputable def witnessState : State ℝ :=
+  { levels := #[⟨1, ⟨5, 3 / 10, 0⟩, ⟨1, 0, 0⟩, 0⟩, ⟨1, ⟨3 / 10, -5, 0⟩, ⟨0, -1, 0⟩, 1⟩],
+    level := some 1, surfaceLevel := some 0, surf := some 0, sense := false, boundary := true,
+    nextLevel := some 0, nextStep := some 0, nextSurf := none, nextSense := false,
+    failed := false }
+
+theorem witness_normal : localNormal witnessGeo witnessState 0 = ⟨1, 0, 0⟩ := by
+  simp [localNormal, witnessState, witnessGeo, Geo.normal, Geo.univ, SimpleUnit.normal,
+    Surface.calcNormal, Surface.gradient, Axis.toNat, Vec3.set]
+
+theorem witness_transform :
+    levelTransform witnessGeo witnessState 0
+      = .transformation ⟨⟨⟨0, -1, 0⟩, ⟨1, 0, 0⟩, ⟨0, 0, 1⟩⟩, ⟨0, 0, 0⟩⟩ := by
+  simp [levelTransform, witnessState, witnessGeo, Geo.daughter, Geo.univ, Geo.daughterInfo]
+
+/-- ★ the defect repaired in aba3908 (DESIGN §8 row a), proved on the model of the loop AS IT
+    WAS WRITTEN: with a rotated daughter and `surface_level < level`, turning back inward
+    (new direction (−3/5, 4/5, 0) against the normal (1,0,0)) must flip the boundary flag —
+    the repaired computation does, the all-levels loop does not. -/
+theorem witness_old_dir : (witnessState.lev 0).dir = ⟨1, 0, 0⟩ := by
+  simp [State.lev, witnessState]
+
+theorem setDir_allLevels_wrong :
+    setDirFlips witnessGeo witnessState ⟨-3 / 5, 4 / 5, 0⟩ 0 = true ∧
+    setDirFlipsAllLevels witnessGeo witnessState ⟨-3 / 5, 4 / 5, 0⟩ 0 = false := by
+  constructor
+  · rw [setDir_flag_correct, witness_normal, witness_old_dir]
+    simp only [dirAtLevel, Vec3R.dot_real]
+    norm_num
+  · have hle : ∀ x : ℝ, Num.le (Num.ofNat 0) x = decide (0 ≤ x) := by
+      intro x
+      show decide (((0 : ℕ) : ℝ) ≤ x) = _
+      simp
+    unfold setDirFlipsAllLevels
+    have hl : witnessState.lvl = 1 := rfl
+    rw [hl]
+    simp only [rotateUpFrom, witness_transform, witness_normal, witness_old_dir, Transform.rotUp,
+      Transformation.rotUp, gemv, Mat3.row, Vec3.get, Num.ge, Vec3R.dot_real, hle]
+    num_simp
+    norm_num
+
+/-! ### direction change on the surface just crossed (known finding) -/
+
+/-- after `set_dir` has made the boundary `reentrant`, `find_next_step` answers (0, boundary)
+    without touching the state and `cross_boundary` only resets the flag: the volume at every
+    level is what it was — also when the surface had ALREADY been crossed, in which case the
+    track now moves back into the previous volume while the state stays in the new one
+    (known finding `setdir-post-crossing-reentry`; replay corpus/C03/setdir_post_crossing_reentry.ops). -/
+theorem reentrant_cross_keeps_volume (g : Geo ℝ) (s : State ℝ) (hb : s.boundary = false) :
+    findNextStep g s none = (s, some (Num.ofNat 0), true) ∧
+    crossBoundary g s = { s with boundary := true } ∧
+    (crossBoundary g s).levels = s.levels := by
+  refine ⟨?_, ?_, ?_⟩
+  · unfold findNextStep; simp [hb]
+  · unfold crossBoundary; simp [hb]
+  · unfold crossBoundary; simp [hb]
+
+/-- two half spaces x < 0 (volume 0) and x > 0 (volume 1) separated by the plane x = 0 -/
+noncomputable def halfGeo : Geo ℝ :=
+  { tolRel := 0, tolAbs := 0,
+    universes := #[.simple { surfaces := #[.planeAligned .x 0], conn := #[[0, 1]],
+                             volumes := #[⟨[0], [0, lnot], 0, none, ⟨0, 0, 0⟩, ⟨0, 0, 0⟩⟩,
+                                          ⟨[0], [0], 0, none, ⟨0, 0, 0⟩, ⟨0, 0, 0⟩⟩],
+                             background := none, inner := #[], leaves := #[⟨none, []⟩],
+                             infVols := [0, 1] }],
+    daughters := #[], transforms := #[], surfOff := #[0, 1], volOff := #[0, 2] }
+
+/-- the state right after `cross_boundary` from volume 0 into volume 1 at the origin, heading +x
+    (on surface 0 with the post-crossing sense `outside`, flag `exiting`) -/
+noncomputable def halfState : State ℝ :=
+  { levels := #[⟨1, ⟨0, 0, 0⟩, ⟨1, 0, 0⟩, 0⟩],
+    level := some 0, surfaceLevel := some 0, surf := some 0, sense := true, boundary := true,
+    nextLevel := some 0, nextStep := some 0, nextSurf := none, nextSense := false,
+    failed := false }
+
+theorem half_flips : setDirFlips halfGeo halfState ⟨-1, 0, 0⟩ 0 = true := by
+  rw [setDir_flag_correct]
+  have hn : localNormal halfGeo halfState 0 = ⟨1, 0, 0⟩ := by
+    simp [localNormal, halfState, halfGeo, Geo.normal, Geo.univ, SimpleUnit.normal,
+      Surface.calcNormal, Surface.gradient, Axis.toNat, Vec3.set]
+  have ho : (halfState.lev 0).dir = ⟨1, 0, 0⟩ := by simp [State.lev, halfState]
+  rw [hn, ho]
+  simp only [dirAtLevel, Vec3R.dot_real]
+  norm_num
+
+/-- independent point location (the model's `initialize` on a fresh point) puts (−1,0,0) in
+    volume 0 -/
+theorem half_locate : halfGeo.initialize 0 ⟨-1, 0, 0⟩ = some 0 := by
+  have h1 : Num.le (-1 : ℝ) 0 = true := by rw [NumR.le_real]; norm_num
+  have h2 : Num.lt (-1 : ℝ) 0 = true := by rw [NumR.lt_real]; norm_num
+  simp [h1, h2, Geo.initialize, Geo.univ, halfGeo, SimpleUnit.initialize, bihCandidates, bihLoop,
+    bihNext, initScan, calcSenses, calcSensesFrom, Surface.calcSense, Surface.quadric, realToSense,
+    evalLogic, evalLogicStep, lnot, lbegin, ltrue, lor, land, Vec3.ax, Axis.toNat, Vec3.get]
+
+/-- ★ NEGATION of "changing direction while sitting on a boundary never desynchronises the
+    reported volume from the actual position" on the model (= the real code, bit for bit: the
+    known finding `setdir-post-crossing-reentry`).  On the surface just crossed into volume 1,
+    `set_dir(−x)` makes the boundary reentrant, `find_next_step` answers (0, boundary),
+    `cross_boundary` is the null-op, the reported volume is still 1 — while the point one unit
+    further along the new direction is located in volume 0. -/
+theorem setDir_postCrossing_desync :
+    let s1 := setDir halfGeo halfState ⟨-1, 0, 0⟩
+    let s2 := (findNextStep halfGeo s1 none).1
+    let s3 := crossBoundary halfGeo s2
+    s1.boundary = false ∧
+    (findNextStep halfGeo s1 none).2 = (some (Num.ofNat 0), true) ∧
+    (s3.lev 0).vol = 1 ∧ (s3.lev 0).dir = ⟨-1, 0, 0⟩ ∧
+    halfGeo.initialize 0 (Vec3.axpy 1 (s3.lev 0).dir (s3.lev 0).pos) = some 0 := by
+  have hb : (setDir halfGeo halfState ⟨-1, 0, 0⟩).boundary = false := by
+    unfold setDir
+    have hsl : halfState.surfaceLevel = some 0 := rfl
+    simp only [hsl, half_flips, if_true, State.clearNext]
+    rfl
+  have hlev : (setDir halfGeo halfState ⟨-1, 0, 0⟩).levels
+      = #[⟨1, ⟨0, 0, 0⟩, ⟨-1, 0, 0⟩, 0⟩] := by
+    unfold setDir
+    have hsl : halfState.surfaceLevel = some 0 := rfl
+    simp only [hsl, half_flips, if_true, State.clearNext]
+    simp [halfState, State.lvl, dirDown, halfGeo, Geo.daughter, Geo.univ, List.range, List.range.loop]
+  obtain ⟨hf, _, hcl⟩ := reentrant_cross_keeps_volume halfGeo _ hb
+  have hl3 : (crossBoundary halfGeo (findNextStep halfGeo
+      (setDir halfGeo halfState ⟨-1, 0, 0⟩) none).1).levels
+      = #[⟨1, ⟨0, 0, 0⟩, ⟨-1, 0, 0⟩, 0⟩] := by rw [hf]; simp only []; rw [hcl, hlev]
+  have hax : Vec3.axpy (1 : ℝ) (⟨-1, 0, 0⟩ : Vec3 ℝ) ⟨0, 0, 0⟩ = ⟨-1, 0, 0⟩ := by
+    simp [Vec3R.axpy_real]
+  refine ⟨hb, by rw [hf], ?_, ?_, ?_⟩
+  · simp [State.lev, hl3]
+  · simp [State.lev, hl3]
+  · simp only [State.lev, hl3]
+    simpa [hax] using half_locate
+
+/-! ### single-level ray tracing = point location -/
+
+/-- ★ (partial: one level; FULL statement wanted: the same for nested universes — by induction
+    on depth with `findNextStep_min_shallowest` — and for piecewise-straight paths with
+    `set_dir`, which is false for a direction reversal on the surface just crossed, see
+    `reentrant_cross_keeps_volume`.)
+    One universe, a straight ray whose crossing events `evs` (face, distance; ascending, as the
+    surface code reports them — C12 `isect_on_surface` / `isect_complete`) obey parity
+    semantics: on each open interval between consecutive events the senses are the start
+    senses flipped once per event passed (C12 `sense_eq_sign`); volumes partition the sense
+    vectors (`loc`).  Then the navigator — find_next_step = first exit of the current volume's
+    logic, cross_boundary = the volume whose logic holds just behind the exit — visits exactly
+    the volumes, at exactly the distances, that independent point location reports; in
+    particular no boundary is skipped or invented. -/
+theorem ray_trace_matches_location_partial (loc : Array Bool → ℕ) (s0 : Array Bool)
+    (evs : List (Hit ℝ)) :
+    navTrace loc evs.length s0 evs = locTrace loc (loc s0) s0 evs :=
+  navTrace_eq_locTrace loc evs.length s0 evs (le_refl _)
+
+/-- termination: every crossing consumes at least one event of the finite list, so the ray
+    leaves the world after at most `evs.length` crossings -/
+theorem ray_trace_terminates (loc : Array Bool → ℕ) (s0 : Array Bool) (evs : List (Hit ℝ)) :
+    (navTrace loc evs.length s0 evs).length ≤ evs.length := by
+  rw [ray_trace_matches_location_partial]
+  exact locTrace_length loc _ _ _
+
+/-! ### non-vacuity -/
+
+/-- a slab −1 < x < 1 (volume 1) between two half spaces (0 and 2); senses (x > −1, x > 1) -/
+def slabLoc (s : Array Bool) : ℕ :=
+  if !(s.getD 0 false) then 0 else if !(s.getD 1 false) then 1 else 2
+
+example :
+    navTrace slabLoc 2 #[false, false] [⟨0, some 2⟩, ⟨1, some 4⟩] = [(1, some 2), (2, some 4)] := by
+  simp [navTrace, exitRest, flip1, slabLoc]
+
+example : locTrace slabLoc 0 #[false, false] [⟨0, some 2⟩, ⟨1, some (4 : ℝ)⟩]
+    = [(1, some 2), (2, some 4)] := by
+  simp [locTrace, flip1, slabLoc]
+
+example : (3 : ℝ) < (maxFinite : ℝ) := by
+  unfold maxFinite
+  show (3 : ℝ) < (OfScientific.ofScientific 17976931348623157 false 292 : ℝ)
+  norm_num
+
+example : LimitedOf (fun _ m => { (Isect.none' : Isect ℝ) with dist := m }) (fun _ => Isect.none') := by
+  intro lev m; simp [Isect.none']
+
+example : (levelTransform witnessGeo witnessState 0).isRotation = true := by
+  rw [witness_transform]; rfl
+
+example : ∀ h ∈ ([⟨0, some 1⟩] : List (Hit ℝ)), (fun s : Array Bool => s.getD 0 false == false)
+    (flip1 #[false] h) = false := by
+  intro h hh; simp at hh; subst hh; simp [flip1]
+
+end CelerVerif.Nav
